@@ -200,6 +200,18 @@ Proof.
 Qed.
 Print Assumptions C01_tls_critical_or_duplicate_refused.
 
+(* key types: a key blob whose Type field is not Ed25519 (RSA = 0 — the cargo feature `rsa` is off —,
+   Secp256k1 = 2, ECDSA = 3, any other number) is never accepted, neither in a Noise identity payload
+   nor in a certificate extension: no "accept by default" for key types litep2p cannot verify *)
+Theorem C01_non_ed25519_never_accepted :
+  forall on_curve verify kb m,
+    decode_keymsg kb = Some m -> k_type m <> 1 ->
+    (forall pb pl rs d p, decode_payload pb = Some pl -> p_key pl = Some kb ->
+       accept on_curve verify pb rs d <> Accept p) /\
+    (forall l sg spki e p, In (XP2p (Some (kb, sg))) l -> tls_accept on_curve verify l spki e <> Accept p).
+Proof. exact non_ed25519_never_accepted. Qed.
+Print Assumptions C01_non_ed25519_never_accepted.
+
 (* under the single-message hypothesis: an extension made for one certificate key is refused in a
    certificate with another key *)
 Theorem C01_tls_binding :
@@ -548,13 +560,16 @@ Proof.
 Qed.
 Print Assumptions C01_early_data.
 
-(* ---- Dolev-Yao model: all interleavings of any number of honest sessions with an active
-   attacker who owns any set `asec` of DH secrets and any set `bad` of identity keys (DY.v) ---- *)
+(* ---- Dolev-Yao model: all interleavings of any number of honest dialer/listener sessions with an
+   active attacker who owns any set `asec` of DH secrets and any set `bad` of identity keys;
+   `pro` assigns a prologue to every session (indexed by its ephemeral secret), arbitrarily, so
+   sessions may disagree about it (Symbolic.v) ---- *)
 (* the attacker's knowledge never contains anything but public terms (the invariant behind all
    secrecy statements): in particular no secret of an honest session, no identity secret of an
    uncompromised agent, no DH output of two honest secrets and no key that mixes one *)
 Theorem C01_dy_attacker_knows_only_public :
-  forall (asec bad : N -> Prop) tr t, DY.valid asec bad tr -> DY.knows asec bad tr t -> DY.pub asec bad t.
+  forall (pro : N -> list N) (asec bad : N -> Prop) tr t,
+    DY.valid pro asec bad tr -> DY.knows asec bad tr t -> DY.pub asec bad t.
 Proof. exact DY.knows_only_public. Qed.
 Print Assumptions C01_dy_attacker_knows_only_public.
 
@@ -566,25 +581,25 @@ Proof. exact DY.knows_mono. Qed.
 Print Assumptions C01_dy_knowledge_monotone.
 
 Theorem C01_dy_secrets_never_leak :
-  forall (asec bad : N -> Prop) tr,
-    DY.valid asec bad tr ->
+  forall (pro : N -> list N) (asec bad : N -> Prop) tr,
+    DY.valid pro asec bad tr ->
     (forall a e s, In (DY.NewD a e s) tr \/ In (DY.NewL a e s) tr ->
        ~ DY.knows asec bad tr (DY.TSk e) /\ ~ DY.knows asec bad tr (DY.TSk s)) /\
     (forall a, ~ bad a -> ~ DY.knows asec bad tr (DY.TIdSk a)).
 Proof.
-  intros asec bad tr V. split.
-  - intros a e s. exact (DY.session_secrets_never_leak asec bad tr a e s V).
-  - intros a. exact (DY.identity_secret_never_leaks asec bad tr a V).
+  intros pro asec bad tr V. split.
+  - intros a e s. exact (DY.session_secrets_never_leak pro asec bad tr a e s V).
+  - intros a. exact (DY.identity_secret_never_leaks pro asec bad tr a V).
 Qed.
 Print Assumptions C01_dy_secrets_never_leak.
 
 (* authentication, standard form: if an honest dialer session completes believing that it talks
    to P then, unless P's identity key is compromised, P signed in one of its honest sessions the
    very static key g^rs that this session's key is bound to; the key mixes g^(e*rs), whose
-   exponents belong to this session and to that session of P, and the attacker never DY.knows it *)
+   exponents belong to this session and to that session of P, and the attacker never knows it *)
 Theorem C01_dy_dialer_authenticates :
-  forall (asec bad : N -> Prop) tr a e s P rs K,
-    DY.valid asec bad tr -> In (DY.AcceptD a e s P rs K) tr -> ~ bad P ->
+  forall (pro : N -> list N) (asec bad : N -> Prop) tr a e s P rs K,
+    DY.valid pro asec bad tr -> In (DY.AcceptD a e s P rs K) tr -> ~ bad P ->
     In (DY.Signed P (DY.signed_part rs)) tr /\
     (exists e', In (DY.NewD P e' rs) tr \/ In (DY.NewL P e' rs) tr) /\
     ~ asec e /\ ~ asec rs /\
@@ -594,8 +609,8 @@ Proof. exact DY.dialer_authenticates. Qed.
 Print Assumptions C01_dy_dialer_authenticates.
 
 Theorem C01_dy_listener_authenticates :
-  forall (asec bad : N -> Prop) tr a e s P rs K,
-    DY.valid asec bad tr -> In (DY.AcceptL a e s P rs K) tr -> ~ bad P ->
+  forall (pro : N -> list N) (asec bad : N -> Prop) tr a e s P rs K,
+    DY.valid pro asec bad tr -> In (DY.AcceptL a e s P rs K) tr -> ~ bad P ->
     In (DY.Signed P (DY.signed_part rs)) tr /\
     (exists e', In (DY.NewD P e' rs) tr \/ In (DY.NewL P e' rs) tr) /\
     ~ asec e /\ ~ asec rs /\
@@ -604,33 +619,63 @@ Theorem C01_dy_listener_authenticates :
 Proof. exact DY.listener_authenticates. Qed.
 Print Assumptions C01_dy_listener_authenticates.
 
-(* the session key is shared with the holder of the authenticated static key and with DY.nobody
-   else: the attacker never DY.knows it (above), and an honest listener session that holds the same
+(* AGREEMENT ON THE TRANSCRIPT, for any number of interleaved sessions and WITHOUT a no-forgery
+   hypothesis (the attacker's inability to make a ciphertext under a key it does not know is derived
+   from the closure rules).  Dialer: the ephemeral key g^y and the static key g^rs it received
+   belong to ONE listener session of the uncompromised P it believes in, that session was created
+   with the SAME PROLOGUE (WebRTC: the same pair of DTLS fingerprints), and the message 2 it
+   accepted is, component for component, the one that session builds in answer to this dialer's
+   own ephemeral key *)
+Theorem C01_dy_dialer_agreement :
+  forall (pro : N -> list N) (asec bad : N -> Prop) tr a e s P rs K,
+    DY.valid pro asec bad tr -> In (DY.AcceptD a e s P rs K) tr -> ~ bad P ->
+    exists y, K = DY.d_key e s y rs /\ In (DY.NewL P y rs) tr /\ pro e = pro y /\
+              DY.msg2_expected pro e y rs P = DY.msg2 pro P y rs e.
+Proof. exact DY.dialer_agreement. Qed.
+Print Assumptions C01_dy_dialer_agreement.
+
+(* Listener (it finishes last): a dialer session of the uncompromised P it believes in, with the
+   ephemeral key this listener answered and the static key it received, has COMPLETED, accepting
+   exactly this listener (agent a, static key g^s) with the very same session key, and was
+   created with the same prologue: mutual, injective agreement *)
+Theorem C01_dy_listener_agreement :
+  forall (pro : N -> list N) (asec bad : N -> Prop) tr a e s P rs K,
+    DY.valid pro asec bad tr -> In (DY.AcceptL a e s P rs K) tr -> ~ bad P ->
+    exists y, K = DY.l_key e s y rs /\ In (DY.NewD P y rs) tr /\ In (DY.AcceptD P y rs a s K) tr /\
+              pro e = pro y.
+Proof. exact DY.listener_agreement. Qed.
+Print Assumptions C01_dy_listener_agreement.
+
+(* the session key is shared with the holder of the authenticated static key and with nobody
+   else: the attacker never knows it (above), and an honest listener session that holds the same
    key as an honest dialer session is the session owning the static key the dialer authenticated,
    authenticated the dialer's static key in turn, and each is the agent the other believes in *)
 Theorem C01_dy_matching_sessions :
-  forall (asec bad : N -> Prop) tr a e s P rs a' e' s' P' rs' K,
-    DY.valid asec bad tr -> In (DY.AcceptD a e s P rs K) tr -> In (DY.AcceptL a' e' s' P' rs' K) tr ->
+  forall (pro : N -> list N) (asec bad : N -> Prop) tr a e s P rs a' e' s' P' rs' K,
+    DY.valid pro asec bad tr -> In (DY.AcceptD a e s P rs K) tr -> In (DY.AcceptL a' e' s' P' rs' K) tr ->
     rs = s' /\ rs' = s /\ (~ bad P -> a' = P) /\ (~ bad P' -> a = P').
 Proof. exact DY.matching_sessions. Qed.
 Print Assumptions C01_dy_matching_sessions.
 
 (* every secret belongs to exactly one honest session (freshness) *)
 Theorem C01_dy_secret_owner_unique :
-  forall (asec bad : N -> Prop) tr ev1 ev2 x,
-    DY.valid asec bad tr -> In ev1 tr -> In ev2 tr -> In x (DY.names ev1) -> In x (DY.names ev2) -> ev1 = ev2.
+  forall (pro : N -> list N) (asec bad : N -> Prop) tr ev1 ev2 x,
+    DY.valid pro asec bad tr -> In ev1 tr -> In ev2 tr -> In x (DY.names ev1) -> In x (DY.names ev2) -> ev1 = ev2.
 Proof. exact DY.owner_unique. Qed.
 Print Assumptions C01_dy_secret_owner_unique.
 
-(* non-vacuity: the honest run is a DY.valid trace in which both sessions accept each other with the
-   same key, DY.nobody being compromised *)
+(* non-vacuity: the honest run is a valid trace in which both sessions accept each other with the
+   same key, nobody being compromised — for every prologue assignment that gives the two sessions
+   the same prologue *)
 Theorem C01_dy_honest_run :
-  DY.valid DY.nobody DY.nobody DY.honest_trace /\
-  In (DY.AcceptD 10 1 2 20 4 (DY.d_key 1 2 3 4)) DY.honest_trace /\
-  In (DY.AcceptL 20 3 4 10 2 (DY.l_key 3 4 1 2)) DY.honest_trace /\
+  forall pro : N -> list N, pro 1 = pro 3 ->
+  DY.valid pro DY.nobody DY.nobody (DY.honest_trace pro) /\
+  In (DY.AcceptD 10 1 2 20 4 (DY.d_key 1 2 3 4)) (DY.honest_trace pro) /\
+  In (DY.AcceptL 20 3 4 10 2 (DY.l_key 3 4 1 2)) (DY.honest_trace pro) /\
   DY.d_key 1 2 3 4 = DY.l_key 3 4 1 2.
 Proof.
-  split; [exact DY.honest_trace_valid|]. split; [right; left; reflexivity|].
+  intros pro EP.
+  split; [exact (DY.honest_trace_valid pro EP)|]. split; [right; left; reflexivity|].
   split; [left; reflexivity|reflexivity].
 Qed.
 Print Assumptions C01_dy_honest_run.
